@@ -298,9 +298,15 @@ class AssignBase(StatementBase):
         get_deps = self.get_dependency_mapper()
 
         def get_vars(expr):
-            return frozenset(dep.name for dep in get_deps(self.rhs))
+            return frozenset(dep.name for dep in get_deps(expr))
 
-        result = get_vars(self.rhs) | get_vars(self.lhs)
+        result = result | get_vars(self.rhs)
+
+        # A subscripted left-hand side reads the variables in its index
+        # (the aggregate itself is written, not read).
+        from pymbolic.primitives import Subscript
+        if isinstance(self.lhs, Subscript):
+            result = result | get_vars(self.lhs.index)
 
         return result
 
@@ -437,6 +443,13 @@ class Assign(Statement, AssignBase):
     @property
     def expression(self):
         return self.rhs
+
+    def get_read_variables(self):
+        result = super().get_read_variables()
+        # Loop bounds are evaluated when the statement runs.
+        for _ident, start, end in self.loops:
+            result = result | get_variables(start) | get_variables(end)
+        return result
 
     def map_expressions(self, mapper, include_lhs=True):
         return (super()
